@@ -27,6 +27,13 @@ import SharkVerif.Lemmas.McOptimality
 import SharkVerif.Lemmas.McPerm
 import SharkVerif.Lemmas.McPsd
 import SharkVerif.Lemmas.McObjective
+import SharkVerif.Lemmas.McSolve
+import SharkVerif.Lemmas.McSimplex
+import SharkVerif.Lemmas.McLinearMc
+import SharkVerif.Lemmas.McBias
+import SharkVerif.Lemmas.McSolveStuck
+import SharkVerif.Lemmas.McDecision
+import SharkVerif.Lemmas.McSimplexRenum
 namespace SharkVerif.C16
 open SharkVerif.Mc SharkVerif.Gen.McTables SharkVerif.McTables
 
@@ -348,5 +355,292 @@ example : ∃ (a : Nat → Rat), Feasible 1 2 a ∧ KKTeps 1 2 0 a (dualGrad 1 (
   · intro v _; norm_num
   · intro v _; simp [dualGrad]
   · intro x; simp; nlinarith [sq_nonneg (x 0)]
+
+/-! ## 6. Whole runs of the decomposition loop `QpSolver::solve` (Model/McSolve.lean) -/
+
+/-- the linear / polynomial-type kernel matrices of the theorems below: Gram matrices of explicit features -/
+def gramK (T : Nat) (φ : Nat → Nat → Rat) (i j : Nat) : Rat := ∑ t ∈ Finset.range T, φ i t * φ j t
+
+theorem gramK_symm (T : Nat) (φ : Nat → Nat → Rat) (i j : Nat) : gramK T φ i j = gramK T φ j i :=
+  Finset.sum_congr rfl fun _ _ => mul_comm _ _
+
+/-- **every state `QpSolver::solve` reaches** on the problem of any formulation family, any class count `c ≥ 2`, any
+data, any accuracy, any iteration limit, with shrinking on or off, satisfies `mc_tables_inv`, `mc_box_inv` and
+`mc_grad_inv` (the working-set selection, the step, the periodic shrinking with its unshrink-at-10·eps rule and the
+stopping rule are all part of the modelled loop) -/
+theorem solve_run_invariants (f : Family) (c n : Nat) (hc : 2 ≤ c) (C : Rat) (hC : 0 ≤ C)
+    (K : Nat → Nat → Rat) (hK : ∀ i j, K i j = K j i) (labels : Nat → Nat) (hl : ∀ i < n, labels i < c)
+    (linMat : Nat → Nat → Rat) (shrinking : Bool) (eps : Rat) (maxIter : Nat) :
+    FullInv (solve { problem f c n C K labels linMat with useShrinking := shrinking } eps maxIter).s :=
+  fullInv_solve _ (fullInv_setShrinking _ (invariants_initially f c n hc C hC K hK labels hl linMat) shrinking) eps maxIter
+
+/-- and from ANY state satisfying the invariants (warm start, bias loop re-entering the solver, adversarial history) -/
+theorem solve_run_invariants_from (s : McBox Rat) (h : FullInv s) (eps : Rat) (maxIter : Nat) :
+    FullInv (solve s eps maxIter).s := fullInv_solve s h eps maxIter
+
+/-- **stop ⇒ KKT(eps)**: if the loop reports `QpAccuracyReached`, all variables are active and the stored gradient,
+which by `mc_grad_inv` is the true gradient `lin − Qα`, is eps-KKT -/
+theorem solve_stop_is_kkt (s : McBox Rat) (h : FullInv s) (eps : Rat) (maxIter : Nat)
+    (hstop : (solve s eps maxIter).stop = .accuracy) :
+    (solve s eps maxIter).s.activeVar = (solve s eps maxIter).s.P * (solve s eps maxIter).s.n ∧
+    KKTeps ((solve s eps maxIter).s.P * (solve s eps maxIter).s.n) (solve s eps maxIter).s.C eps
+      (solve s eps maxIter).s.alpha (solve s eps maxIter).s.grad := solve_stop_kkt s h eps maxIter hstop
+
+/-- **stop ⇒ KKT(eps) ⇒ objective gap, end to end, for the generated problems** (`Q = M ⊗ K`, `M` generated from
+CSvmTrainer.h, `K` a Gram matrix): whatever the configuration, if `QpSolver::solve` reports `QpAccuracyReached` then
+the dual variables it leaves — read in the ORIGINAL numbering of the problem through the renumbering `τ` built up by
+the shrinking operations — are feasible and within `eps·(P·n)·C` of every feasible point of the formulation's dual. -/
+theorem solve_generated_near_optimal (f : Family) (c n : Nat) (hc : 2 ≤ c) (C : Rat) (hC : 0 ≤ C)
+    (T : Nat) (φ : Nat → Nat → Rat) (labels : Nat → Nat) (hl : ∀ i < n, labels i < c)
+    (linMat : Nat → Nat → Rat) (shrinking : Bool) (eps : Rat) (maxIter : Nat)
+    (hstop : (solve { problem f c n C (gramK T φ) labels linMat with useShrinking := shrinking } eps maxIter).stop = .accuracy) :
+    ∃ τ : Nat → Nat, (∀ v < f.P c * n, τ v < f.P c * n) ∧
+      Feasible (f.P c * n) C
+        (fun v => (solve { problem f c n C (gramK T φ) labels linMat with useShrinking := shrinking } eps maxIter).s.alpha (τ v)) ∧
+      ∀ b, Feasible (f.P c * n) C b →
+        dualObj (f.P c * n) (problem f c n C (gramK T φ) labels linMat).lin (problem f c n C (gramK T φ) labels linMat).Q b
+          - dualObj (f.P c * n) (problem f c n C (gramK T φ) labels linMat).lin (problem f c n C (gramK T φ) labels linMat).Q
+              (fun v => (solve { problem f c n C (gramK T φ) labels linMat with useShrinking := shrinking } eps maxIter).s.alpha (τ v))
+          ≤ eps * (f.P c * n : Nat) * C :=
+  solve_stop_near_optimal { problem f c n C (gramK T φ) labels linMat with useShrinking := shrinking }
+    (fullInv_setShrinking _ (invariants_initially f c n hc C hC _ (gramK_symm T φ) labels hl linMat) shrinking)
+    (generated_Q_psd f c n hc C T φ labels hl linMat) eps maxIter hstop
+
+/-- **configuration invariance of the decomposition solver, end to end**: shrinking on/off and the iteration limits
+do not matter — any two runs on the same generated problem that report `QpAccuracyReached` have dual objectives
+(of the one original dual) within `eps·(P·n)·C`.  The kernel cache does not enter: the model reads `K` as a function
+(that a cache of any admissible size returns exactly these entries is property C09); a reordering of the examples
+is the renaming `perm_examples_equivariant`. -/
+theorem solve_generated_configuration_invariant (f : Family) (c n : Nat) (hc : 2 ≤ c) (C : Rat) (hC : 0 ≤ C)
+    (T : Nat) (φ : Nat → Nat → Rat) (labels : Nat → Nat) (hl : ∀ i < n, labels i < c)
+    (linMat : Nat → Nat → Rat) (eps : Rat) (sh1 sh2 : Bool) (m1 m2 : Nat)
+    (h1 : (solve { problem f c n C (gramK T φ) labels linMat with useShrinking := sh1 } eps m1).stop = .accuracy)
+    (h2 : (solve { problem f c n C (gramK T φ) labels linMat with useShrinking := sh2 } eps m2).stop = .accuracy) :
+    ∃ τ1 τ2 : Nat → Nat,
+      |dualObj (f.P c * n) (problem f c n C (gramK T φ) labels linMat).lin (problem f c n C (gramK T φ) labels linMat).Q
+          (fun v => (solve { problem f c n C (gramK T φ) labels linMat with useShrinking := sh1 } eps m1).s.alpha (τ1 v))
+        - dualObj (f.P c * n) (problem f c n C (gramK T φ) labels linMat).lin (problem f c n C (gramK T φ) labels linMat).Q
+          (fun v => (solve { problem f c n C (gramK T φ) labels linMat with useShrinking := sh2 } eps m2).s.alpha (τ2 v))|
+        ≤ eps * (f.P c * n : Nat) * C :=
+  solve_configuration_invariant (problem f c n C (gramK T φ) labels linMat)
+    (invariants_initially f c n hc C hC _ (gramK_symm T φ) labels hl linMat)
+    (generated_Q_psd f c n hc C T φ labels hl linMat) eps sh1 sh2 m1 m2 h1 h2
+
+/-- **the loop never leaves the preconditions of the operations it calls**: for a positive accuracy `updateSMO(i,j)`
+is always called with `i, j < m_activeVar` (the SIZE_CHECK that NDEBUG compiles out) — from any state, for any
+iteration limit, shrinking on or off.  (`selectWorkingSet` names active variables whenever it reports a positive
+violation, and the `shrink` between the two selections of a pass never deactivates a violating variable.) -/
+theorem solve_never_stuck_box (s : McBox Rat) (eps : Rat) (heps : 0 < eps) (maxIter : Nat) :
+    (solve s eps maxIter).stop ≠ .stuck := solve_never_stuck s eps heps maxIter
+
+/-- non-vacuity of the hypothesis `stop = accuracy`: MMR table, one example, `K = 1`, `C = 1`, accuracy 2: the first
+pass sees the violation `1 < 2`, unshrinks, re-checks and stops -/
+example : (solve (problem .MMR 2 1 1 (fun _ _ => 1) (fun _ => 0) (fun _ _ => 1)) 2 1).stop = .accuracy := by
+  simp [solve, solveLoop, solveBody, McBox.selectWorkingSetFrom, McBox.selectFirst, problem, McBox.init,
+    McBox.unshrink, McBox.checkKKT, McBox.maxViolation, McBox.numVars, Family.P, List.range_succ, cmax]
+  norm_num
+  simp
+
+/-! ## 7. The simplex-constrained decomposition `QpMcSimplexDecomp` (CS, ATM, ADM, MMR; Model/McSimplex.lean) -/
+
+/-- the problem `QpMcSimplexDecomp(kernel, M, labels, linear, C)` for a generated table -/
+def simplexProblem (f : Family) (c n : Nat) (C : Rat) (K : Nat → Nat → Rat) (labels : Nat → Nat)
+    (linMat : Nat → Nat → Rat) : McSx Rat :=
+  McSx.init c (f.P c) n C (fun r => (f.M c).row r) K labels linMat
+
+theorem simplex_invariants_initially (f : Family) (c n : Nat) (hc : 2 ≤ c) (C : Rat) (hC : 0 ≤ C)
+    (K : Nat → Nat → Rat) (hK : ∀ i j, K i j = K j i) (labels : Nat → Nat) (hl : ∀ i < n, labels i < c)
+    (linMat : Nat → Nat → Rat) : SxInv (simplexProblem f c n C K labels linMat) := by
+  have hP : 0 < f.P c := by cases f <;> simp [Family.P] <;> omega
+  exact sxInv_init c (f.P c) n C hC _ K labels linMat hP
+    (fun r => M_rows_wellformed f c hc r)
+    (fun y p y' p' hy hy' hp hp' => generated_M_symmetric f c hc y p y' p' hy hy' hp hp')
+    hK hl
+
+/-- **mc_simplex_inv** (with the tables and gradient invariants) for EVERY state that
+`QpSolver<QpMcSimplexDecomp>::solve` reaches: `α ≥ 0`, `0 ≤ varsum_i ≤ C`, `Σ_p α_{i,p} ≤ C + 1e-14` — the
+constraint of the formulation up to the slack the code's own snapping of `varsum` to `0`/`C` allows (the real code
+does exceed `C` by an ulp: observed `2.0000000000000004` for `C = 2`), the example/variable tables stay mutually
+inverse and the stored gradient of the active variables is `lin − Qα`; every family, `c ≥ 2`, any data, any
+accuracy / iteration limit, shrinking on or off. -/
+theorem simplex_run_invariants (f : Family) (c n : Nat) (hc : 2 ≤ c) (C : Rat) (hC : 0 ≤ C)
+    (K : Nat → Nat → Rat) (hK : ∀ i j, K i j = K j i) (labels : Nat → Nat) (hl : ∀ i < n, labels i < c)
+    (linMat : Nat → Nat → Rat) (eps : Rat) (maxIter : Nat) :
+    SxInv (solveX (simplexProblem f c n C K labels linMat) eps maxIter).s :=
+  sxInv_solveX _ (simplex_invariants_initially f c n hc C hC K hK labels hl linMat) eps maxIter
+
+/-- the sum constraint in the form the formulation states it -/
+theorem simplex_sum_constraint (s : McSx Rat) (h : SxInv s) (e : Nat) (he : e < s.b.n) :
+    (∀ p < s.b.P, 0 ≤ s.b.alpha ((s.b.ex e).var p)) ∧
+    ∑ p ∈ Finset.range s.b.P, s.b.alpha ((s.b.ex e).var p) ≤ s.b.C + (1.e-14 : Rat) :=
+  ⟨fun p hp => h.simplex.nonneg _ (h.tables.var_lt e he p hp), h.simplex.sum_le e he⟩
+
+/-- every operation a client can perform preserves the invariants (`updateSMO` in its three cases — one variable,
+two variables of one example via the triangle sub-solver, two variables of different examples via the box
+sub-solver with the bounds `C − varsum + α` —, `deactivateVariable` with the automatic `deactivateExample`,
+`shrink`, `unshrink`, `addDeltaLinear`) -/
+theorem simplex_ops_preserve (s : McSx Rat) (h : SxInv s) :
+    (∀ v w, v < s.b.activeVar → w < s.b.activeVar → SxInv (s.updateSMO v w)) ∧
+    (∀ v, v < s.b.activeVar → SxInv (s.deactivateVariable v)) ∧
+    (∀ eps, SxInv (s.shrink eps).1) ∧ SxInv s.unshrink ∧ (∀ d, SxInv (s.addDeltaLinear d)) :=
+  ⟨fun v w hv hw => sxInv_updateSMO s h v w hv hw, fun v hv => sxInv_deactivateVariable s h v hv,
+    fun eps => sxInv_shrink s h eps, sxInv_unshrink s h, fun d => sxInv_addDeltaLinear s h d⟩
+
+/-- **stop ⇒ KKT(eps)** for the simplex problem -/
+theorem simplex_stop_is_kkt (s : McSx Rat) (h : SxInv s) (eps : Rat) (maxIter : Nat)
+    (hstop : (solveX s eps maxIter).stop = .accuracy) :
+    (solveX s eps maxIter).s.b.activeVar = (solveX s eps maxIter).s.b.P * (solveX s eps maxIter).s.b.n ∧
+    KKTsx (solveX s eps maxIter).s eps := solveX_stop_kkt s h eps maxIter hstop
+
+/-- non-vacuity: the invariant is satisfiable with a non-trivial state (fresh CS problem, 3 classes, 2 examples) -/
+example : SxInv (simplexProblem .WWCS 3 2 1 (fun i j => if i = j then 1 else 0) (fun i => i) (fun _ _ => 1)) :=
+  simplex_invariants_initially .WWCS 3 2 (by omega) 1 (by norm_num) _ (by intro i j; by_cases h : i = j <;> simp [h, eq_comm])
+    _ (by intro i hi; omega) _
+
+/-! ## 8. The dedicated multi-class linear solvers `QpMcLinear*` (Model/McLinearMc.lean) -/
+
+/-- **mc_linear_w_inv / mc_linear_feasible / mc_linear_gain_nonneg** for the box-type formulations (WW, LLW, ATS,
+MMR, reinforced): along EVERY schedule of per-example steps from the zero start — whatever the ACF preferences, the
+random shuffling or shrinking of the epoch loop produce — the weight vectors are the formulation's linear map of the
+dual variables (`w_c = Σ_i coef(F, y_i, α_i)_c · x_i`), `0 ≤ α ≤ C`, and the gain `solveSub` returns for the next
+step is non-negative. -/
+theorem mc_linear_invariants (F : McForm) (hF : F.simplex = false) (D : MlData Rat) (hC : 0 ≤ D.C)
+    (sched : List Nat) (hs : ∀ i ∈ sched, i < D.n) :
+    MlWInv F D (mlSweep F D mlInit sched) ∧ MlBoxInv D (mlSweep F D mlInit sched) ∧
+    ∀ i < D.n, 0 ≤ (mlStep F D (mlSweep F D mlInit sched) i).2.1 :=
+  ⟨mc_linear_w_inv F hF D hC sched hs, mc_linear_feasible F hF D hC sched hs,
+    fun i hi => mc_linear_gain_nonneg F hF D hC sched hs i hi⟩
+
+/-- non-vacuity: the five formulations covered -/
+example : ∀ F ∈ [McForm.WW, .LLW, .ATS, .MMR, .RS], F.simplex = false := by
+  intro F hF; simp at hF; rcases hF with rfl | rfl | rfl | rfl | rfl <;> rfl
+
+/-! ## 9. The bias loop `BiasSolver::solve` as far as it is logic (Model/McBias.lean) -/
+
+/-- **whatever the Rprop rule decides**: after ANY sequence of inner solves (`QpSolver::solve`, any accuracy and
+iteration limit) and bias steps (`performBiasUpdate(step, nu)`, any step) on the problem of any family and class
+count, all invariants of the decomposition state hold and the linear part of the dual — read through the
+example/variable tables, which shrinking has renumbered — is the trainer's `linear(i,p)` shifted by the ACCUMULATED
+bias `b = Σ steps`:  `lin(i,p) = linear(i,p) − Σ_{entries of nu.row(y_i·P+p)} value · b(index)`.  So every inner
+solve works on the fixed-bias dual of exactly the bias vector the solver reports (`bias += step`). -/
+theorem bias_loop_consistent (f : Family) (c n : Nat) (hc : 2 ≤ c) (C : Rat) (hC : 0 ≤ C)
+    (K : Nat → Nat → Rat) (hK : ∀ i j, K i j = K j i) (labels : Nat → Nat) (hl : ∀ i < n, labels i < c)
+    (linMat : Nat → Nat → Rat) (ops : List BiasOp) :
+    FullInv (biasRun (fun r => (f.nu c).row r) (problem f c n C K labels linMat) ops) ∧
+    LinInv (biasRun (fun r => (f.nu c).row r) (problem f c n C K labels linMat) ops)
+      (fun i p => linMat i p + biasDelta (fun r => (f.nu c).row r) (f.P c) labels (biasSum ops) i p) :=
+  bias_history _ ops _ linMat (invariants_initially f c n hc C hC K hK labels hl linMat)
+    (linInv_init c (f.P c) n C _ K labels linMat)
+
+/-- the bias step enters linearly: `deltaLinear` of a sum of steps is the sum of the `deltaLinear`s -/
+theorem bias_delta_additive (nu : Nat → Row Rat) (P : Nat) (labels : Nat → Nat) (a b : Nat → Rat) (i p : Nat) :
+    biasDelta nu P labels (fun c => a c + b c) i p = biasDelta nu P labels a i p + biasDelta nu P labels b i p :=
+  biasDelta_add nu P labels a b i p
+
+/-- non-vacuity: a history with two solves around a bias step -/
+example : biasSum [.solve 1 10, .update (fun c => if c = 0 then 1 else -1), .solve 1 10] 0 = 1 := by
+  simp [biasSum]
+
+/-- the same for `BiasSolverSimplex` (CS, ATM, ADM, MMR with offset): any sequence of runs of
+`QpSolver<QpMcSimplexDecomp>::solve` and bias steps keeps tables, gradient and simplex invariants, and the linear part
+is the trainer's one shifted by the accumulated bias -/
+theorem bias_loop_consistent_simplex (f : Family) (c n : Nat) (hc : 2 ≤ c) (C : Rat) (hC : 0 ≤ C)
+    (K : Nat → Nat → Rat) (hK : ∀ i j, K i j = K j i) (labels : Nat → Nat) (hl : ∀ i < n, labels i < c)
+    (linMat : Nat → Nat → Rat) (ops : List BiasOp) :
+    SxInv (biasRunX (fun r => (f.nu c).row r) (simplexProblem f c n C K labels linMat) ops) ∧
+    LinInv (biasRunX (fun r => (f.nu c).row r) (simplexProblem f c n C K labels linMat) ops).b
+      (fun i p => linMat i p + biasDelta (fun r => (f.nu c).row r) (f.P c) labels (biasSum ops) i p) :=
+  bias_history_simplex _ ops _ linMat (simplex_invariants_initially f c n hc C hC K hK labels hl linMat)
+    (linInv_init c (f.P c) n C _ K labels linMat)
+
+/-- every run of the simplex solve loop only renumbers the dual problem (`Q`, `lin` up to a bijection of the
+variables), as for the box problem -/
+theorem simplex_run_renumbers (s : McSx Rat) (h : SxInv s) (eps : Rat) (maxIter : Nat) :
+    Renumbered s.b (solveX s eps maxIter).s.b := renum_solveX s h eps maxIter
+
+/-! ## 10. The decision-function map `Σ_p ν·α` and what the solver accuracy says about the decision function -/
+
+/-- centred coefficient of class `k` contributed by the dual variable `(y, p)`: `ν(y,p,k) − (Σ_k' ν(y,p,k'))/c` -/
+def nuC (f : Family) (c y p k : Nat) : Rat := nuAt (f.nu c) (f.P c) y p k - nuSum (f.nu c) c (f.P c) y p / c
+
+/-- the coefficient the trainer writes into the decision function for example `i` and class `k`
+(`CSvmTrainer::train`: `alpha(i,k) = Σ_p nu(P·y_i+p, k)·alpha(i,p)`), centred over the classes -/
+def decCoef (f : Family) (c : Nat) (labels : Nat → Nat) (d : Nat → Rat) (i k : Nat) : Rat :=
+  ∑ p ∈ Finset.range (f.P c), nuC f c (labels i) p k * d (f.P c * i + p)
+
+/-- **the dual quadratic form is the squared norm of the (centred) decision function**: for every formulation
+family, class count `c ≥ 2`, data and every vector `δ` of dual variables,
+`δᵀ (M ⊗ K) δ = Σ_k Σ_{i,j} D(i,k)·K(i,j)·D(j,k)` with `D = decCoef δ`.  (For WW/CS the coefficient vectors sum to
+zero, so centring changes nothing.) -/
+theorem decision_map_quadratic (f : Family) (c n : Nat) (hc : 2 ≤ c) (C : Rat) (K : Nat → Nat → Rat)
+    (labels : Nat → Nat) (hl : ∀ i < n, labels i < c) (linMat : Nat → Nat → Rat) (d : Nat → Rat) :
+    ∑ v ∈ Finset.range (f.P c * n), ∑ w ∈ Finset.range (f.P c * n), d v * (problem f c n C K labels linMat).Q v w * d w
+      = ∑ k ∈ Finset.range c, ∑ i ∈ Finset.range n, ∑ j ∈ Finset.range n,
+          decCoef f c labels d i k * K i j * decCoef f c labels d j k := by
+  have hP : 0 < f.P c := by cases f <;> simp [Family.P] <;> omega
+  have hQ : ∀ v ∈ Finset.range (f.P c * n), ∀ w ∈ Finset.range (f.P c * n),
+      d v * (problem f c n C K labels linMat).Q v w * d w
+        = d v * ((∑ k ∈ Finset.range c, nuC f c (labels (v / f.P c)) (v % f.P c) k * nuC f c (labels (w / f.P c)) (w % f.P c) k)
+            * K (v / f.P c) (w / f.P c)) * d w := by
+    intro v hv w hw
+    have hvn : v / f.P c < n := Nat.div_lt_of_lt_mul (Finset.mem_range.mp hv)
+    have hwn : w / f.P c < n := Nat.div_lt_of_lt_mul (Finset.mem_range.mp hw)
+    have h := M_is_centred_gram_all f c hc (labels (v / f.P c)) (v % f.P c) (labels (w / f.P c)) (w % f.P c)
+      (hl _ hvn) (Nat.mod_lt _ hP) (hl _ hwn) (Nat.mod_lt _ hP)
+    have hce := centred_gram_eq c (by omega)
+      (fun (x : Nat) k => nuAt (f.nu c) (f.P c) (labels (x / f.P c)) (x % f.P c) k) v w
+    unfold mAt Sparse.get gramCentered gram at h
+    have hq : (problem f c n C K labels linMat).Q v w
+        = (∑ k ∈ Finset.range c, nuC f c (labels (v / f.P c)) (v % f.P c) k * nuC f c (labels (w / f.P c)) (w % f.P c) k)
+            * K (v / f.P c) (w / f.P c) := by
+      simp only [problem, McBox.Q, McBox.init, McBox.Mget]
+      rw [Nat.mul_comm (f.P c) (labels (v / f.P c)), h]
+      unfold nuC nuSum
+      rw [← hce]
+    rw [hq]
+  rw [Finset.sum_congr rfl fun v hv => Finset.sum_congr rfl fun w hw => hQ v hv w hw]
+  rw [kron_quadratic (f.P c) n c hP (fun v k => nuC f c (labels (v / f.P c)) (v % f.P c) k) K d]
+  have hdiv : ∀ i p, p < f.P c → (f.P c * i + p) / f.P c = i ∧ (f.P c * i + p) % f.P c = p := by
+    intro i p hp
+    constructor
+    · rw [Nat.add_comm, Nat.add_mul_div_left _ _ hP, Nat.div_eq_of_lt hp, Nat.zero_add]
+    · rw [Nat.mul_add_mod, Nat.mod_eq_of_lt hp]
+  have hD : ∀ i k, ∑ p ∈ Finset.range (f.P c),
+        nuC f c (labels ((f.P c * i + p) / f.P c)) ((f.P c * i + p) % f.P c) k * d (f.P c * i + p)
+      = decCoef f c labels d i k := by
+    intro i k
+    unfold decCoef
+    refine Finset.sum_congr rfl fun p hp => ?_
+    rw [(hdiv i p (Finset.mem_range.mp hp)).1, (hdiv i p (Finset.mem_range.mp hp)).2]
+  simp only [hD]
+
+/-- **two configurations that both stop with accuracy `eps` have close decision functions**: for any two feasible
+eps-KKT points `a`, `b` of the dual of a generated problem, the difference `D = decCoef (b − a)` of the decision
+coefficients satisfies `Σ_k Σ_{i,j} D(i,k) K(i,j) D(j,k) ≤ 2·eps·(P·n)·C` — the squared RKHS norm of the difference of
+the (centred) decision functions; by Cauchy–Schwarz `|Δf_k(x)| ≤ sqrt(2·eps·P·n·C·k(x,x))`, half of the tolerance
+`2·sqrt(2·eps·n·P·C)·sqrt(k(x,x))` the trainer-level comparison applies. -/
+theorem stopped_configurations_close_decision (f : Family) (c n : Nat) (hc : 2 ≤ c) (C : Rat) (hC : 0 ≤ C)
+    (K : Nat → Nat → Rat) (hK : ∀ i j, K i j = K j i) (labels : Nat → Nat) (hl : ∀ i < n, labels i < c)
+    (linMat : Nat → Nat → Rat) (eps : Rat) (heps : 0 ≤ eps) (a b : Nat → Rat)
+    (ha : Feasible (f.P c * n) C a) (hb : Feasible (f.P c * n) C b)
+    (hka : KKTeps (f.P c * n) C eps a (dualGrad (f.P c * n) (problem f c n C K labels linMat).lin (problem f c n C K labels linMat).Q a))
+    (hkb : KKTeps (f.P c * n) C eps b (dualGrad (f.P c * n) (problem f c n C K labels linMat).lin (problem f c n C K labels linMat).Q b)) :
+    ∑ k ∈ Finset.range c, ∑ i ∈ Finset.range n, ∑ j ∈ Finset.range n,
+        decCoef f c labels (fun v => b v - a v) i k * K i j * decCoef f c labels (fun v => b v - a v) j k
+      ≤ 2 * (eps * (f.P c * n : Nat) * C) := by
+  rw [← decision_map_quadratic f c n hc C K labels hl linMat (fun v => b v - a v)]
+  have hinv := invariants_initially f c n hc C hC K hK labels hl linMat
+  exact two_kkt_points_close_quadratic (f.P c * n) _ _ C eps heps
+    (fun v hv w hw => Q_symm _ hinv v w hv hw) a b ha hb hka hkb
+
+/-- non-vacuity of the hypotheses: the zero vector is feasible and 1-KKT for the fresh MMR problem with one example
+(gradient `= lin = 1`) -/
+example : Feasible 1 1 (fun _ => (0 : Rat)) ∧
+    KKTeps 1 1 1 (fun _ => (0 : Rat)) (dualGrad 1 (problem .MMR 2 1 1 (fun _ _ => 1) (fun _ => 0) (fun _ _ => 1)).lin
+      (problem .MMR 2 1 1 (fun _ _ => 1) (fun _ => 0) (fun _ _ => 1)).Q (fun _ => 0)) := by
+  refine ⟨fun v _ => by norm_num, fun v hv => ?_⟩
+  have : v = 0 := by omega
+  subst this
+  simp [dualGrad, problem, McBox.init]
 
 end SharkVerif.C16
